@@ -14,7 +14,7 @@
 (* with its expected rows and replayed on real host queries.               *)
 (***************************************************************************)
 EXTENDS Lex, Rel, Json, FiniteSets
-CONSTANT Inst
+CONSTANTS Inst, Deep      \* Deep: up to two base conditions and two pre-joins (author and info) per host query
 VARIABLES q, steps
 
 INSTANCE_DB == INSTANCE MC_C04 WITH MaxOps <- 0, Root <- "Post", t <- q, n <- steps
@@ -35,7 +35,8 @@ Filters == << Cmp("eq", Id0("n"), IntL(1)),
               Coll(Id0("comments"), "any", Lam(Id0("c"), Cmp("gt", P("c", <<"k">>), IntL(1)))),
               Bool("and", Cmp("ne", Id0("title"), NullL), Coll(Id0("authors"), "all", Lam(Id0("e"), Cmp("gt", P("e", <<"rank">>), IntL(1))))),
               Call(Id0("contains"), <<Id0("title"), SL("a")>>),
-              Bool("and", Cmp("eq", P("info", <<"tag">>), SL("p")), Cmp("eq", P("author", <<"info", "tag">>), SL("a"))) >>
+              Bool("and", Cmp("eq", P("info", <<"tag">>), SL("p")), Cmp("eq", P("author", <<"info", "tag">>), SL("a"))),
+              Bool("or", Cmp("eq", P("author", <<"home", "name">>), NullL), Cmp("eq", P("info", <<"tag">>), SL("p"))) >>
 \* to-one relations a filter navigates (the joins SQLAlchemy needs; Django resolves them itself)
 RECURSIVE RootOf(_)
 RootOf(p) == IF p[1] = "Attr" THEN RootOf(p[2]) ELSE p
@@ -49,11 +50,12 @@ Init == q = Empty /\ steps = <<>>
 PickStyle == /\ q.style = "none" /\ \E s \in Styles : q' = [q EXCEPT !.style = s]
              /\ steps' = steps
 Buildable == q.style \in {"sa-select", "sa-legacy", "dj-queryset"} /\ q.applied = 0
-BaseWhere == /\ Buildable /\ Len(q.wheres) = 0
-             /\ \E c \in DOMAIN BaseConds : q' = [q EXCEPT !.wheres = Append(@, c)] /\ steps' = Append(steps, <<"where", c>>)
-BaseJoin == /\ Buildable /\ Len(q.joins) = 0 /\ q.style # "dj-queryset"
+BaseWhere == /\ Buildable /\ Len(q.wheres) < (IF Deep THEN 2 ELSE 1)
+             /\ \E c \in DOMAIN BaseConds : (\A i \in 1..Len(q.wheres) : q.wheres[i] # c) /\ q' = [q EXCEPT !.wheres = Append(@, c)] /\ steps' = Append(steps, <<"where", c>>)
+RelOf(j) == IF j \in {"author-inner", "author-outer"} THEN "author" ELSE "info"
+BaseJoin == /\ Buildable /\ Len(q.joins) < (IF Deep THEN 2 ELSE 1) /\ q.style # "dj-queryset"
             /\ \E j \in {"author-inner", "author-outer", "info-inner", "info-outer"} :
-                 q' = [q EXCEPT !.joins = Append(@, j)] /\ steps' = Append(steps, <<"join", j>>)
+                 (\A i \in 1..Len(q.joins) : RelOf(q.joins[i]) # RelOf(j)) /\ q' = [q EXCEPT !.joins = Append(@, j)] /\ steps' = Append(steps, <<"join", j>>)
 BaseOrder == /\ Buildable /\ q.order = "none"
              /\ q' = [q EXCEPT !.order = "id-desc"] /\ steps' = Append(steps, <<"order", "id-desc">>)
 BaseAnnotate == /\ Buildable /\ ~q.annot
